@@ -42,6 +42,9 @@ def optsets(tier, rnd):
             jobs.append({'fmt': fmt, 'o': set(sub), 'gfsep': '-'})
             if 'gf' in sub and (tier != 'quick' or len(sub) <= 2):
                 jobs.append({'fmt': fmt, 'o': set(sub), 'gfsep': '#'})
+            if 'gf' in sub and (tier != 'quick' or len(sub) <= 1):
+                # a separator the command line delivers as the integer 0 (misc.options_dict turns digits into int)
+                jobs.append({'fmt': fmt, 'o': set(sub), 'gfsep': '0'})
     return jobs
 
 
